@@ -157,6 +157,12 @@ def corpus():
          ("rule", A("r"), [P(A("dom", "X")), P(A("u", "X")), N(A("u", "X"))]),
          ("rule", A("s"), [P(A("dom", "X")), P(A("u", "X"))]),
          ("query", A("r")), ("query", A("s"))])
+    add("existential-body-variable-in-probabilistic-clause",
+        [("fact", A("w", "a", "a", "p1")), ("fact", A("w", "a", "b", "p2")), ("fact", A("w", "b", "b", "p3")),
+         ("ad", [("P", A("h", "X"))], [P(A("w", "X", "Y", "P"))]),
+         ("ad", [("p4", A("r"))], []), ("ad", [("p5", A("r"))], []),
+         ("rule", A("s"), [P(A("h", "a")), P(A("r"))]),
+         ("query", A("h", "X")), ("query", A("r")), ("query", A("s"))])
     add("deterministic-query-next-to-fact",
         [("fact", A("dom", "a")), ("ad", [("p1", A("f"))], []),
          ("rule", A("r1", "X"), [P(A("dom", "X"))]), ("rule", A("r2"), [P(A("f"))]),
@@ -417,6 +423,7 @@ def graph_program(rng, n=None):
 def cyclic_prop_program(rng):
     """Dense positive cycles among propositional atoms, several queries (cycle breaking reuse shapes)."""
     dense = rng.random() < 0.6
+    det = rng.random() < 0.4
     nf = rng.randint(2, 4 if dense else 5)
     facts = [A("f%d" % i) for i in range(nf)]
     prog = [("ad", [("p%d" % (i + 1), facts[i])], []) for i in range(nf)]
@@ -426,12 +433,17 @@ def cyclic_prop_program(rng):
         for _ in range(rng.randint(2, 4) if dense else rng.randint(1, 3)):
             body = []
             for _ in range(rng.randint(1, 2)):
-                if rng.random() < 0.6:
+                x = rng.random()
+                if x < 0.6:
                     body.append(P(rng.choice(ders)))
-                else:
+                elif x < 0.93 or not det:
                     body.append((rng.choice(facts), (not dense) and rng.random() < 0.15))
+                else:
+                    body.append(P(A("t")))
             body = [l for l in body if not l[1]] + [l for l in body if l[1]]
             prog.append(("rule", d, body))
+    if det:
+        prog.append(("fact", A("t")))
     qs = list(ders)
     rng.shuffle(qs)
     for q in qs[: (nd if dense else rng.randint(2, nd))]:
@@ -453,6 +465,22 @@ def generate(seed, idx, **kw):
     g = Gen(rng, **kw)
     prog = g.generate()
     return prog
+
+
+def collapse_params(prog, const="0.25"):
+    """Replace every parameter p<k> by the same numeric constant: distinct ground choices then carry
+    identical probabilities (and, after grounding, possibly identical clause texts)."""
+    def sub(x):
+        return const if (x[:1] == "p" and x[1:].isdigit()) else x
+    out = []
+    for s in prog:
+        if s[0] == "ad":
+            out.append(("ad", [(sub(p), a) for p, a in s[1]], s[2]))
+        elif s[0] == "fact":
+            out.append(("fact", (s[1][0], tuple(sub(a) for a in s[1][1]))))
+        else:
+            out.append(s)
+    return out
 
 
 def ad_groups_of(prog):
